@@ -740,6 +740,31 @@ pub fn main() {
                     }
                 }
                 c.label_if(push_after_comment, "append-after-unterminated-comment");
+                // a new section appended after a last section whose body ends in an EMPTY comment without newline
+                // (`[a]\n;<EOF>`): File::write_to() takes the comment for blank space, finds the newline before it and
+                // writes the new header onto the comment line (`;[b]`)
+                let mut section_after_empty_comment = false;
+                let appends_section = match &edit {
+                    Edit::NewSection { .. } => true,
+                    Edit::SetRawValue { name, sub, .. } => !model.exists(name.as_bytes(), sub.as_deref()),
+                    _ => false,
+                };
+                if appends_section {
+                    if let Some(sec) = file.sections().last() {
+                        let bytes = sec.to_bstring();
+                        let parsed = Events::from_bytes(&bytes, None);
+                        if let Ok(ev) = &parsed {
+                            if let Some(last) = ev.sections.last() {
+                                let tail = last.events.iter().rev().find(|e| !matches!(e, gix_config::parse::Event::Whitespace(_)));
+                                if let Some(gix_config::parse::Event::Comment(cm)) = tail {
+                                    section_after_empty_comment = cm.text.iter().all(|b| b.is_ascii_whitespace());
+                                }
+                            }
+                        }
+                        drop(parsed);
+                    }
+                }
+                c.label_if(section_after_empty_comment, "section-appended-after-empty-comment");
                 let before = Model { secs: model.secs.clone() };
                 let outcome = apply_model(&mut model, &edit);
                 // rename_section() leaves the lookup tree on the old name (known finding): a later remove of such a section
@@ -844,6 +869,8 @@ pub fn main() {
                         "set-on-implicit-key"
                     } else if push_after_comment {
                         "push-after-unterminated-comment"
+                    } else if section_after_empty_comment {
+                        "section-appended-after-empty-comment"
                     } else {
                         generic
                     }
